@@ -45,6 +45,9 @@ type DOp struct {
 	// exec only: Unenc: the input holds a value CBOR cannot encode (func, chan, complex): the
 	// work-start fails in the encoder, before a single byte is written; the connection stays healthy
 	Unenc int `json:"unenc,omitempty"`
+	// exec only: Answer: the (single) consumer of signalsFromStep answers every emitted signal by
+	// sending a signal on signalsToStep before it receives again (both channels unbuffered)
+	Answer bool `json:"answer,omitempty"`
 }
 
 // SOp is one operation of the scripted server.
